@@ -32,6 +32,17 @@ def main():
         c = CLAIMS.get(pid)
         if c and c[0]:
             _, technique, text, note, ref = c
+            # the rule ids actually evaluated by the last run (evidence), so that the claim names every
+            # clause added after the seeded rounds and gap reviews; statements are in RULES.md / DESIGN.md section 4
+            ev = os.path.join(ROOT, "evidence", pid + ".json")
+            if os.path.exists(ev):
+                try:
+                    cov = json.load(open(ev))["coverage"]
+                    rules = sorted(k.split(".", 1)[1] for k in cov.get("instances_by_rule", {}) if not k.endswith(".selftest"))
+                    text = text + " Rules evaluated (%d instances on the current tree; each is a structural necessary condition, stated in RULES.md): %s." % (
+                        len(cov.get("instances", [])), ", ".join(rules))
+                except Exception:
+                    pass
             checks.append({
                 "property_id": pid,
                 "quick_cmd": "./check.sh %s quick" % pid,
